@@ -121,6 +121,11 @@ func (w *World) findProcRolesUncached() *procRoles {
 				}
 			}
 		}
+		for _, host := range []*ssa.Function{pr.start, pr.invoke} {
+			if rec := pr.recoverHandlerOf(host); rec != nil {
+				rn[rec.Name()] = rn[host.Name()] + "$recover"
+			}
+		}
 		pr.lta.roleName = rn
 	}
 	return pr
@@ -307,14 +312,7 @@ func checkC05(w *World, r *Report) {
 	evStart := EvCall("Start", pr.start)
 	nRec := 0
 	for _, host := range []*ssa.Function{pr.start, pr.invoke} {
-		var rec *ssa.Function
-		for _, a := range host.AnonFuncs {
-			for _, rf := range pr.recovers {
-				if rf == a {
-					rec = a
-				}
-			}
-		}
+		rec := pr.recoverHandlerOf(host)
 		key := fname(host) + ":recover-handler"
 		if rec == nil {
 			r.Fail("C05.R2", key, "a deferred recover handler guards the deliveries of "+host.Name(), w.fnPos(host), "no deferred closure calling recover(): a panic in Receive kills the process")
@@ -325,7 +323,7 @@ func checkC05(w *World, r *Report) {
 		hg := w.FG(host)
 		defNodes := make([]bool, len(hg.ins))
 		for _, d := range hg.defers {
-			if mc, ok := hg.ins[d].(*ssa.Defer).Call.Value.(*ssa.MakeClosure); ok && mc.Fn == ssa.Value(rec) {
+			if deferredFn(hg.ins[d].(*ssa.Defer)) == rec {
 				defNodes[d] = true
 			}
 		}
